@@ -14,7 +14,8 @@ RULE = ('probe decks of one surface (every elementary kind incl. one-sheet cones
         'surfaces 1000*cell+surface with either sign; universes filled with transformations. The abstract deck given '
         'to the Lean spec carries the full motion; the text carries the abbreviated card. 250 points per deck. '
         'Distinct = (kind, spelling, rotation class, parameters).')
-NOT_PROVED = ['3-entry matrices (one vector given: MCNP completes arbitrarily, no independent spec) are not generated',
+NOT_PROVED = ['3-entry matrices (one vector given: MCNP completes arbitrarily, no independent spec; not named by the property) '
+              'are compared with the model only',
               'adjust_matrix on slightly non-orthogonal input has no independent spec (MCNP-internal adjustment)']
 ASSUMPTIONS = ['supplied matrices are rotations (orthogonal, det +1) up to rounding']
 
@@ -109,7 +110,9 @@ def trnorm_case(seed, rng, ctx):
         model = [struct.unpack('<d', struct.pack('<Q', int(x)))[0] for x in resp.split()[1:]]
         if isinstance(code, tuple) or len(model) != len(code) or any(abs(a - c) > 1e-9 for a, c in zip(model, code)):
             fails.append(fail('disagreement', 'normalize_transform(%r): model %r / code %r' % (tr, model, code), {'stream': 'trnorm'}, rp))
-        if not isinstance(code, tuple) and kind not in ('bad4',) and len(code) == 12:
+        # the property speaks of 9, 6 and 5 matrix entries; a single row or column (3 entries) is completed by the code
+        # too, but outside the property: it is compared with the model only (see DESIGN §0.5, observation O1)
+        if not isinstance(code, tuple) and kind not in ('bad4', 'row1', 'row2', 'row3', 'col1', 'col2') and len(code) == 12:
             # spec: the completed matrix is a proper rotation and reproduces every supplied entry
             mat = code[3:]
             rows = [mat[0:3], mat[3:6], mat[6:9]]
